@@ -35,6 +35,9 @@ type Eval struct {
 	pkg   *types.Package
 	loop  *loopInfo
 	prev  *State // iteration-start snapshot for prev(e) in `loop N step` clauses
+	// lockedAt != nil: locked(e) denotes e in this state (a callee's contract applied at a call site: the state in which
+	// the callee took its lock is the pre-state of the call with everything the callee's monitors guard unknown)
+	lockedAt *State
 	// frameFrom != nil: havocTarget does not invent fresh values but copies, for every declared target, the value the
 	// location has in frameFrom (frame check: "the state reached differs from the entry state only at declared targets")
 	frameFrom *State
@@ -780,6 +783,9 @@ func (ev *Eval) call(e *Expr) *Value {
 	case "locked":
 		// value of e right after the function under verification first acquired a monitor lock
 		snap := ev.st.lockSnap
+		if ev.lockedAt != nil {
+			snap = ev.lockedAt
+		}
 		if snap == nil {
 			// no guarded lock on this path: locked(e) degenerates to the entry state
 			snap = ev.v.entry
@@ -849,6 +855,10 @@ func (ev *Eval) call(e *Expr) *Value {
 		a := ev.evalAddr(e.Args[0])
 		slot, idx := onceSlot(a)
 		return scalar(specBool, Select(ev.state().heapArr(slot, onceSort), idx))
+	case "sent":
+		// sent(ch): number of send statements executed on channel ch by the code under verification
+		ch := ev.eval(e.Args[0])
+		return scalar(specInt, Select(ev.state().heapArr("chan#sent", ArrSort(SInt, SInt)), ch.term()))
 	case "holds":
 		// holds(x.mu): this goroutine holds mutex x.mu at this point of the path (for reading or writing)
 		a := ev.evalAddr(e.Args[0])
